@@ -1,5 +1,5 @@
 """C11: logging fidelity -- the log files are an exact transcript."""
-from simpex import sendlog
+from simpex import sendlog, interact_fam
 from simpex.runner import CheckSpec
 from checks.c01_c03_engine import COMPONENTS
 
@@ -9,21 +9,36 @@ RULE = ('the C08 histories (send family interleaved with reads against an echoin
         'the reads delivered to matching; logfile_send == concatenation of what each send-family call was asked to send (coerced '
         'argument, + linesep for sendline, control byte decoded in unicode mode); logfile == both merged in operation order; every '
         'write is followed by a flush before the next write; every logged object has the API string type. '
-        'Non-trivial: >= 1 log write; distinct by trace digest')
+        'During interact() (a quarter of the runs): logs get the API string type; logfile_read == what was copied to the display; '
+        'logfile_send == what was forwarded to the child. Non-trivial: >= 1 log write; distinct by trace digest')
 
-ASSUME = ['interact() logging is judged by the C15 harness (clause C11.interact), asyncio logging by C14 (clause C11.async)']
+ASSUME = ['a quarter of the runs are interact() sessions (C15 harness) with log files attached (clauses C11.interact_*)']
 
 
 def nontrivial(scn, info):
     c = info.get('counters', {})
-    return c.get('sent_bytes', 0) > 0 or c.get('read_chunks', 0) > 0
+    return c.get('sent_bytes', 0) > 0 or c.get('read_chunks', 0) > 0 or c.get('typed', 0) > 0 or c.get('child_wrote', 0) > 0
 
 
 def tag(scn, v):
     return '%s/%s' % (scn.get('transport'), v.detail.get('log'))
 
 
+def generate(rng):
+    if rng.random() < 0.25:
+        scn = interact_fam.generate(rng)
+        scn['logs'] = rng.choice([['logfile'], ['logfile_read', 'logfile_send'], ['logfile_read'], ['logfile_send']])
+        return scn
+    return sendlog.generate(rng, 'C11')
+
+
+def run(scn):
+    if scn.get('family') == 'interact':
+        return interact_fam.run(scn, 'C11')
+    return sendlog.run(scn, 'C11')
+
+
 def spec(pid):
-    return CheckSpec('C11', 'logging fidelity', lambda rng: sendlog.generate(rng, 'C11'), lambda s: sendlog.run(s, 'C11'),
+    return CheckSpec('C11', 'logging fidelity', generate, run,
                      level='exploration', runs={'quick': 40000, 'thorough': 800000}, budget_s={'quick': 45, 'thorough': 900},
                      rule=RULE, assumptions=ASSUME, components=COMPONENTS, nontrivial=nontrivial, tag=tag)
